@@ -250,7 +250,8 @@ def minimize(ctx: Ctx, modname: str, case: dict, disc: dict, max_rounds: int = 4
     for _ in range(max_rounds):
         if time.time() > t_end:
             break
-        cands = [c for c in candidates(cur) if (valid is None or valid(c))]
+        cand_fn = getattr(_mod(modname), "candidates", candidates)
+        cands = [c for c in cand_fn(cur) if (valid is None or valid(c))]
         if not cands:
             break
         cands.sort(key=lambda c: len(json.dumps(c, default=str)))
@@ -277,6 +278,7 @@ def report_failures(ctx: Ctx, modname: str, failures: list[dict], valid: Any = N
             if key not in buckets or size < len(json.dumps(buckets[key][1], default=str)):
                 buckets[key] = (d, f["case"])
     ctx.extra["new_discrepancy_buckets"] = len(buckets)
+    seen: set = set()
     for key in sorted(buckets, key=lambda k: str(k))[:max_reports]:
         d, case = buckets[key]
         try:
@@ -284,6 +286,10 @@ def report_failures(ctx: Ctx, modname: str, failures: list[dict], valid: Any = N
         except Exception as e:  # noqa: BLE001 - minimisation is best effort
             small, d2 = case, d
             print(f"(minimisation failed: {e})")
+        sig = (d2["kind"], d2["element"], trunc(d2["detail"], 200))
+        if sig in seen:
+            continue
+        seen.add(sig)
         ctx.violation(d2, {"case": small})
 
 
